@@ -230,3 +230,66 @@ func ruleBISONNS(c *Ctx) {
 	}
 	c.Bad(rule, key, f.Pos(), "no lookup of the nonterminal's name among the registered token IDs leads to a diagnostic: with writeBison a nonterminal FOO_BAR and a token foo_bar (ID FOO_BAR) are printed as the same word")
 }
+
+// MUSTPASS(all-rules-listed): the export iterates .Parser.RulesByNonterm; every rule of
+// Parser.Rules must end up in exactly one group, so in the grouping loop every iteration passes
+// through the store that appends the rule to its group (no path from the loop body back to the
+// header avoids it) and the loop is only left through its header.
+func ruleALLRULES(c *Ctx) {
+	const rule = "MUSTPASS(all-rules-listed)"
+	key := "grammar.Parser.RulesByNonterm:append"
+	f := c.SSAFunc("grammar", "(*Parser).RulesByNonterm")
+	if f == nil {
+		c.Lost(rule, key, "function not found")
+		return
+	}
+	loops := naturalLoops(f)
+	if len(loops) != 1 {
+		c.Lost(rule, key, "expected one loop over p.Rules, found %d", len(loops))
+		return
+	}
+	lp := loops[0]
+	// the append of the rule: a store into the Rules field of an element of ret
+	var ab *ssa.BasicBlock
+	var pos token.Pos
+	for b := range lp.Body {
+		for _, ins := range b.Instrs {
+			if st, ok := ins.(*ssa.Store); ok {
+				if fa, ok := st.Addr.(*ssa.FieldAddr); ok && fieldName(fa.X.Type(), fa.Field) == "Rules" {
+					ab, pos = b, st.Pos()
+				}
+			}
+		}
+	}
+	if ab == nil {
+		c.Lost(rule, key, "no store into NontermRules.Rules inside the loop")
+		return
+	}
+	var body *ssa.BasicBlock
+	for _, s := range lp.Header.Succs {
+		if lp.Body[s] {
+			body = s
+		}
+	}
+	early := false
+	for b := range lp.Body {
+		if b == lp.Header {
+			continue
+		}
+		for _, s := range b.Succs {
+			if !lp.Body[s] {
+				early = true
+			}
+		}
+	}
+	switch {
+	case body == nil:
+		c.Lost(rule, key, "loop body not found")
+	case body != ab && reachesWithout(body, lp.Header, ab):
+		c.Bad(rule, key, pos, "an iteration of the grouping loop can return to the header without appending its rule: the export lists fewer productions than the tables were built from and later rule numbers shift")
+	case early:
+		c.Bad(rule, key, pos, "the grouping loop can be left before all rules were visited")
+	default:
+		c.Ok(rule, key, pos, "every rule of Parser.Rules is appended to the group of its left-hand side")
+	}
+}
